@@ -420,6 +420,15 @@ pub fn dump_items<'tcx>(tcx: TyCtxt<'tcx>) -> J {
                         }
                     }
                 }
+                // the initialiser of a local constant (array / tuple constants have no scalar value): its HIR expression
+                if let Some(ldid2) = did.as_local() {
+                    if tcx.hir_maybe_body_owned_by(ldid2).is_some() {
+                        let body = tcx.hir_body_owned_by(ldid2);
+                        let tr = tcx.typeck(ldid2);
+                        let hx = Hx { tcx, tr, env: TypingEnv::post_analysis(tcx, did) };
+                        o = o.f("init", hx.expr(body.value));
+                    }
+                }
                 consts.push(o.done());
             }
             DefKind::Static { .. } => {
